@@ -268,6 +268,12 @@ def run(facts, res):
                                   "the collection holds only objects whose winner is not a deletion, so e.g. read(None) after the default root was replaced "
                                   "aborts the calling thread instead of returning an error" % (mp, c.name, callee_name(x)), m.loc(t.line))
     res.floor("R4", "explicit panic sites on the read path", n4, 1)
+    _run_termination(facts, res)
+
+
+def _run_termination(facts, res):
+    from . import c08_term
+    c08_term.check(facts, res)
 
 
 def _validate_exception(subj, body, site, bl, tok, facts=None, marker=None):
